@@ -506,6 +506,10 @@ func (c *columns) Store(columnName string, main *column, index ...*column) {
 			continue
 		}
 
+		// Copy on write, the current registry may be in use by readers
+		columns = append(make([]columnEntry, 0, cap(columns)), columns...)
+		columns[i].cols = append(make([]*column, 0, len(v.cols)+len(index)), v.cols...)
+
 		// If we found an existing entry, update it and we're done
 		if main != nil {
 			columns[i].cols[0] = main
@@ -544,6 +548,7 @@ func (c *columns) DeleteColumn(columnName string) {
 func (c *columns) DeleteIndex(columnName, indexName string) {
 	index, _ := c.Load(indexName)
 	columns := c.cols.Load().([]columnEntry)
+	columns = append(make([]columnEntry, 0, cap(columns)), columns...) // copy on write
 	for i, v := range columns {
 		if v.name != columnName {
 			continue
